@@ -212,6 +212,9 @@ where
         // different memory region during the rest of this function - we do not care about that.
         let memory_region_id = self.hardware.current_memory_region_id();
 
+        #[cfg(folo_verif)]
+        crate::__verif::point("set_local/region-resolved");
+
         self.global_state
             .with_regional_state(memory_region_id, |regional_state| {
                 regional_state.set(value);
@@ -389,6 +392,9 @@ where
                 break;
             }
 
+            #[cfg(folo_verif)]
+            crate::__verif::point("initialize/uninitialized-seen");
+
             // Nothing is happening. We may be the first to start initializing.
             let attempt_signal = Arc::new(ManualResetEvent::new(EventState::Unset));
             let attempt = Some(Arc::new(RegionalValue::<T>::Initializing(Arc::clone(
@@ -419,6 +425,10 @@ where
             // than the initial value, so we only replace our own "initializing" marker and
             // never a value that was written in the meantime.
             let new_value = RegionalValue::Ready(initializer());
+
+            #[cfg(folo_verif)]
+            crate::__verif::point("initialize/initialized");
+
             self.value
                 .compare_and_swap(&attempt, Some(Arc::new(new_value)));
 
